@@ -78,12 +78,13 @@ func genPFaultCase(t *rapid.T, prop string) *Case {
 }
 
 type pfOutcome struct {
-	err    error
-	pi     *PanicInfo
-	buf    []byte
-	ret    int64
-	events int
-	writes int
+	dropsChanged string
+	err          error
+	pi           *PanicInfo
+	buf          []byte
+	ret          int64
+	events       int
+	writes       int
 }
 
 func runPFaultCase(c *Case, env *Env) *Result {
@@ -127,6 +128,15 @@ func runPFaultCase(c *Case, env *Env) *Result {
 		res.probe("persist-" + target.Def.Store)
 	}
 
+	var dropsRef []*roaring.Bitmap
+	for _, d := range drops {
+		if d == nil {
+			dropsRef = append(dropsRef, nil)
+		} else {
+			dropsRef = append(dropsRef, d.Clone())
+		}
+	}
+	segsRef := append([]segment.Segment(nil), segs...)
 	// one execution of the workload with a writer fault and/or a cancellation point
 	exec := func(wf *WriteFault, cancelAt int) *pfOutcome {
 		out := &pfOutcome{}
@@ -175,11 +185,38 @@ func runPFaultCase(c *Case, env *Env) *Result {
 		out.buf = wr.Buf
 		out.events = event
 		out.writes = wr.Calls
+		// whatever happened: the caller's slices and bitmaps are the caller's
+		for k := range dropsRef {
+			if (drops[k] == nil) != (dropsRef[k] == nil) || (drops[k] != nil && !drops[k].Equals(dropsRef[k])) {
+				out.dropsChanged = fmt.Sprintf("drops[%d] handed to Merge was changed by the call (now %v)", k, drops[k])
+			}
+		}
+		if len(segsRef) == len(segs) {
+			for k := range segsRef {
+				if segs[k] != segsRef[k] {
+					out.dropsChanged = fmt.Sprintf("segments[%d] handed to Merge was replaced by the call", k)
+				}
+			}
+		}
 		res.SubRuns++
 		res.Events += event
 		return out
 	}
 
+	rawExec := exec
+	var changed string
+	exec = func(wf *WriteFault, cancelAt int) *pfOutcome {
+		o := rawExec(wf, cancelAt)
+		if o.dropsChanged != "" && changed == "" {
+			changed = fmt.Sprintf("%s (writer fault %+v, cancel at %d): %s", desc, wf, cancelAt, o.dropsChanged)
+		}
+		return o
+	}
+	defer func() {
+		if changed != "" && res.Fail == nil {
+			res.Fail = mismatch("C15", "immutability", "merge-arguments", changed)
+		}
+	}()
 	free := exec(nil, -1)
 	if free.pi != nil || free.err != nil {
 		prop := "C02"
